@@ -51,11 +51,19 @@ func (l *loaded) Close() {
 
 // loadImage builds the described image and loads it with image.FromV1Image.
 func loadImage(desc tarimg.Image, requirer require.FileRequirer, maxSymlinkDepth int) (*loaded, error) {
+	return loadImageLimit(desc, requirer, maxSymlinkDepth, 0)
+}
+
+// loadImageLimit is loadImage with a per-file byte limit (0 = the library's default).
+func loadImageLimit(desc tarimg.Image, requirer require.FileRequirer, maxSymlinkDepth int, maxFileBytes int64) (*loaded, error) {
 	v, err := desc.Build()
 	if err != nil {
 		return nil, fmt.Errorf("harness: cannot build image: %w", err)
 	}
-	cfg := &image.Config{MaxFileBytes: image.DefaultMaxFileBytes, MaxSymlinkDepth: maxSymlinkDepth, Requirer: requirer}
+	if maxFileBytes <= 0 {
+		maxFileBytes = image.DefaultMaxFileBytes
+	}
+	cfg := &image.Config{MaxFileBytes: maxFileBytes, MaxSymlinkDepth: maxSymlinkDepth, Requirer: requirer}
 	img, err := image.FromV1Image(v, cfg)
 	if err != nil {
 		return &loaded{V1: v}, err
